@@ -77,6 +77,19 @@ Definition new_tree (t : tree) : M unit :=
   mbind (fun s => Tree_set_seed_node_obj (n_trees s) (Some (t_id t)) s) (fun _ =>
   build t)).
 
+(* wave 8: calls the API must REFUSE with a documented error, which the caller catches:
+     RRemoveChild p n   p.remove_child(n) with n not among p's children   -> ValueError
+     RAddChild p n      p.add_child(n) with n = p or n = p's parent       -> AssertionError
+   In both methods every statement before the raise only READS (the membership test / the two asserts come
+   first), so the store left behind is the store before the call: in the monad M a raise yields no store, and
+   the history goes on with the store the call started from (steps_ok below).  The pointer-level account of
+   "the state an exception leaves behind" is C03's heap model (Model/Heap.v, hres carries the heap at the raise),
+   tied to Node.remove_child statement by statement by py/dv/gen_mutators.py. *)
+Inductive refused_kind : Type := RRemoveChild | RAddChild.
+
+Definition refused_err (k : refused_kind) : err :=
+  match k with RRemoveChild => ValueErr | RAddChild => AssertErr end.
+
 Inductive step : Type :=
 | SKids (n : Z) (es : list edit) (put_back : bool)    (* kids = n.child_nodes(); edits; n.set_child_nodes(kids) | keep *)
 | STreeFromSeed (n : Z)                               (* Tree(seed_node=n) *)
@@ -84,7 +97,14 @@ Inductive step : Type :=
 | SReparent (n p : Z)                                 (* n.parent_node = p *)
 | SNewChild (n x : Z)                                 (* x = n.new_child() *)
 | SRemoveChild (n : Z)                                (* n.parent_node.remove_child(n) *)
-| SNewTree (t : tree).
+| SNewTree (t : tree)
+| SRefused (k : refused_kind) (p n : Z).              (* try: p.remove_child(n) / p.add_child(n)  except: pass *)
+
+Definition do_refused (k : refused_kind) (p n : Z) : M unit :=
+  match k with
+  | RRemoveChild => remove_child p n
+  | RAddChild => mbind (Node_add_child_obj p n) (fun _ => ret tt)
+  end.
 
 Definition do_step (st : step) : M unit :=
   match st with
@@ -99,6 +119,7 @@ Definition do_step (st : step) : M unit :=
   | SRemoveChild n =>
     mbind (o_get_parent n) (fun p => match p with Some q => remove_child q n | None => raise AttrErr end)
   | SNewTree t => new_tree t
+  | SRefused k p n => do_refused k p n
   end.
 
 Definition empty_store : store := mkS [] [] 0 [] [].
@@ -260,9 +281,11 @@ Fixpoint steps_ok (s : store) (sts : list step) (obs : list hrec) : bool :=
   match sts, obs with
   | [], [] => true
   | st :: sr, r :: rr =>
-    match do_step st s with
-    | Ok (_, s') => rec_ok s' r && steps_ok s' sr rr
-    | _ => false
+    match st, do_step st s with
+    | SRefused _ _ _, Ok _ => false                                  (* the call must be refused *)
+    | SRefused k _ _, Err e => err_eqb e (refused_err k) && rec_ok s r && steps_ok s sr rr
+    | _, Ok (_, s') => rec_ok s' r && steps_ok s' sr rr
+    | _, _ => false
     end
   | _, _ => false
   end.
@@ -280,7 +303,11 @@ Definition hcase_show (c : hcase) : option (nat * store) :=
     (fix go (i : nat) (s : store) (sts : list step) : option (nat * store) :=
        match sts with
        | [] => Some (i, s)
-       | st :: sr => match do_step st s with Ok (_, s') => go (S i) s' sr | _ => Some (i, s) end
+       | st :: sr => match st, do_step st s with
+                     | SRefused _ _ _, Err _ => go (S i) s sr
+                     | _, Ok (_, s') => go (S i) s' sr
+                     | _, _ => Some (i, s)
+                     end
        end) O s0 (h_steps c)
   | _ => None
   end.
